@@ -517,6 +517,26 @@ pub const NUMBER_CASES: [(&str, &str); 40] = [
     ("number(/r)", "7"), ("/r/@a + 1", "13"), ("/r/@b + 0", "NaN"), ("/r/@c + 0", "NaN"), ("/r/@d + 0", "NaN"), ("' 12 ' = 12", "true"), ("/r/@a = 12", "true"),
 ];
 
+// XPath 1.0 5: string-values of nodes (references in content expanded, as the tools parse)
+pub const STRING_CASES: [(&str, &str, &str); 16] = [
+    ("<!DOCTYPE r [<!ENTITY e 'v'>]><r>a&e;b</r>", "string(/r)", "avb"),
+    ("<!DOCTYPE r [<!ENTITY e 'v'>]><r>a&e;b</r>", "count(/r/text())", "1"),
+    ("<r>a&lt;b&#65;c<![CDATA[<d>]]><!--x--><?p y?><s>e</s></r>", "string(/r)", "a<bAc<d>e"),
+    ("<r>a&lt;b&#65;c<![CDATA[<d>]]><!--x--><?p y?><s>e</s></r>", "string(/)", "a<bAc<d>e"),
+    ("<r>a&lt;b&#65;c<![CDATA[<d>]]><!--x--><?p y?><s>e</s></r>", "string(/r/text()[1])", "a<bAc<d>"),
+    ("<r>a&lt;b&#65;c<![CDATA[<d>]]><!--x--><?p y?><s>e</s></r>", "string(/r/comment())", "x"),
+    ("<r>a&lt;b&#65;c<![CDATA[<d>]]><!--x--><?p y?><s>e</s></r>", "string(/r/processing-instruction())", "y"),
+    ("<r>a&lt;b&#65;c<![CDATA[<d>]]><!--x--><?p y?><s>e</s></r>", "string-length(/r)", "9"),
+    ("<r>a&lt;b&#65;c<![CDATA[<d>]]><!--x--><?p y?><s>e</s></r>", "count(/r/node())", "4"),
+    ("<!DOCTYPE r [<!ENTITY e 'v'>]><r><s>&e;</s>&e;</r>", "string(/r)", "vv"),
+    ("<r k=' a  b '><s> t </s></r>", "string(/r/@k)", " a  b "),
+    ("<r k=' a  b '><s> t </s></r>", "string(/r)", " t "),
+    ("<r k='x&#10;y'/>", "string-length(/r/@k)", "3"),
+    ("<r><a>1</a><a>2</a></r>", "string(/r/a)", "1"),
+    ("<r><a>1</a><a>2</a></r>", "sum(/r/a)", "3"),
+    ("<r><a>1</a><a>2</a></r>", "/r/a = 2", "true"),
+];
+
 // XPath 1.0 2.4: a predicate whose value is a number is true exactly when the number equals the proximity position
 pub const PREDICATE_CASES: [(&str, &str); 16] = [
     ("name(/r/*[1])", "a"), ("name(/r/*[2])", "c"), ("name(/r/*[3.0])", "i"), ("count(/r/*[1.5])", "0"), ("count(/r/*[2.9])", "0"), ("count(/r/*[0.5])", "0"),
@@ -572,7 +592,8 @@ pub const QUERIES: [&str; 60] = [
 
 pub fn xpath_query_op(kind: &str, a: &Args) -> Option<Outcome> {
     let docs = a.get("doc").cloned().unwrap_or_else(|| QUERY_DOCS[0].to_string());
-    let (_, doc) = xml_dom::XmlDocument::from_raw(docs.as_str()).ok()?;
+    // as the xq / xe tools and the crate's own tests do: entity and character references in content are expanded (XPath data model)
+    let (_, doc) = xml_dom::XmlDocument::from_raw_with_context(docs.as_str(), xml_dom::Context::from_text_expanded(true)).ok()?;
     let q = a.get("query").cloned().unwrap_or_default();
     match kind {
         // C19: `second` on a context that already served `first` must answer as on a fresh context
@@ -628,7 +649,7 @@ pub fn xpath_query_op(kind: &str, a: &Args) -> Option<Outcome> {
             Some(Outcome { observed, expected: format!("Number({}.0 bits:{:#018x})", want, want.parse::<f64>().unwrap().to_bits()), note: d.to_string() })
         }
         // C10: name tests and name functions against expanded names; the caller binds q -> "u" and w -> "w"
-        "names" | "axes" | "numbers" | "predicates" => {
+        "names" | "axes" | "numbers" | "predicates" | "strings" => {
             let want = a.get("expected").cloned().unwrap_or_default();
             let observed = guard(|| {
                 let mut c = Context::default();
@@ -1031,6 +1052,11 @@ pub fn xpath_grid(rest: &[&str]) -> Vec<Args> {
         ["query", "numbers"] => {
             for (q, e) in NUMBER_CASES {
                 out.push(mk(&[("doc", "<r a=' 12 ' b='1e3' c='+1' d='inf'> 7 </r>"), ("query", q), ("expected", e)]));
+            }
+        }
+        ["query", "strings"] => {
+            for (d, q, e) in STRING_CASES {
+                out.push(mk(&[("doc", d), ("query", q), ("expected", e)]));
             }
         }
         ["query", "predicates"] => {
